@@ -68,6 +68,12 @@ def norm_rule(r):
         return "EVAL[%s]" % (parts[-1] if parts else "?")
     if r.startswith("EVAL("):
         return "EVAL(ISZERO)"
+    if r.startswith("("):
+        # memory rules carry the access they fired on: "('33', 's(0)', 'mstore8') of mload"
+        names = re.findall(r"'([a-z]+[0-9]*)'\)", r)
+        tail = r.rsplit(")", 1)[-1].strip()
+        return "<%s> %s" % (",".join(re.sub(r"[0-9]+$", "", n) if n.startswith(("mload", "sload")) else n
+                                     for n in names), tail)
     return r
 
 
